@@ -59,6 +59,13 @@ class Binary(DPMechanism):
         self.value0, self.value1 = self._check_labels(value0, value1)
 
     @classmethod
+    def _check_epsilon_delta(cls, epsilon, delta):
+        if not delta == 0:
+            raise ValueError("Delta must be zero")
+
+        return super()._check_epsilon_delta(epsilon, delta)
+
+    @classmethod
     def _check_labels(cls, value0, value1):
         if not isinstance(value0, str) or not isinstance(value1, str):
             raise TypeError("Binary labels must be strings. Use a DPTransformer  (e.g. transformers.IntToString) for "
